@@ -383,6 +383,20 @@ func runRefl(raw json.RawMessage) (res *Result, err error) {
 			s.SetErr(errors.New("stale"))
 			s.Free()
 			recvAny = s
+		case "freedbusy":
+			// released (through a copy of the handle) while the instance is busy: from inside its own
+			// push policy, i.e. with the stack's lock held.  Free makes the handle zero unless the
+			// instance is read-only - a held lock is not a reason to refuse
+			s := stk.And().Push(1)
+			s.SetMutex()
+			var inside stk.Stack
+			s.SetPushPolicy(func(...any) error {
+				inside = s
+				inside.Free()
+				return nil
+			})
+			s.Push(2)
+			recvAny = inside
 		case "freedpolcond":
 			c := stk.Cond("k", stk.Eq, "v").SetValidityPolicy(func(...any) error { return errors.New("fails") }).SetNoNesting(true)
 			c.SetErr(errors.New("stale"))
@@ -787,7 +801,7 @@ func genZeroReflect(ctx *Ctx, emit func(any, string)) {
 	sm := methodNames(&stk.Stack{})
 	cm := methodNames(&stk.Condition{})
 	am := methodNames(&stk.Auxiliary{})
-	for _, rn := range []string{"zstack", "freed", "freedpol", "other-handle"} {
+	for _, rn := range []string{"zstack", "freed", "freedpol", "freedbusy", "other-handle"} {
 		for _, m := range sm {
 			for v := 0; v < nVariants(stk.Stack{}, m); v++ {
 				emit(ReflInput{Mode: "zero", Recv: rn, Calls: []RCall{{m, v}}}, "exhaustive")
